@@ -86,6 +86,18 @@ On(a) == a \in Fam
 PushLit == On("lit") /\ Building /\ \E j \in 1..Len(LitPool) : Join(0, Lit(LitPool[j]))
 PushVar == On("var") /\ Building /\ \E j \in 1..Len(Cur.scope) : Join(0, Sym(Cur.scope[j].nm))
 
+(* ---- scope probes (C10): names that must NOT be visible ------------------- *)
+(* inside a module body: a binding of the enclosing file *)
+MkOuterRef == On("outerref") /\ Building /\ Cur.kind = "mod" /\ Len(ctx) >= 2 /\
+              \E j \in 1..Len(ctx[Len(ctx) - 1].scope) : Join(0, Sym(ctx[Len(ctx) - 1].scope[j].nm))
+(* at top level: a parameter name of some signature, or `item` (they must not leak) *)
+ParamNames == UNION {{SigPool[q][z].nm : z \in 1..Len(SigPool[q])} : q \in 1..Len(SigPool)} \cup {N_item}
+MkLeakRef == On("leakref") /\ Building /\ Cur.kind = "top" /\
+             \E n \in ParamNames : ~Bound(Cur.scope, n) /\ Join(0, Sym(n))
+(* inside a function body: a top-level name that is bound only later (or never) *)
+MkFwdRef == On("fwdref") /\ Building /\ Cur.kind = "func" /\
+            \E j \in 1..Len(Names) : ~Bound(Cur.scope, Names[j]) /\ Join(0, Sym(Names[j]))
+
 (* ---- joins ---------------------------------------------------------------- *)
 MkBin == On("bin") /\ Building /\ Len(Stk) >= 2 /\
          \E o \in BinOps : Join(2, Bin(o, TopT(2).x, TopT(1).x))
@@ -245,7 +257,7 @@ MkLetUse == On("letuse") /\ Building /\ Cur.kind = "top" /\ Len(Stk) = 1 /\ NGen
                 n1 == Names[c.last + 1]
                 n2 == Names[c.last + 2]
                 st1 == [s |-> "let", nm |-> n1, x |-> t.x]
-            IN /\ t.v.t \in {"func", "module"}
+            IN /\ t.v.t \in {"func", "module"} /\ t.x.e \in {"func", "module"}     \* a definition, not a reference
                /\ \E ov \in BOOLEAN :
                     LET use == IF t.v.t = "func"
                                  THEN [e |-> "call", fn |-> n1, args |-> SigArgs(t.v.ps)]
@@ -287,7 +299,7 @@ GenInit == /\ ctx = << Ctx("top", Run(Prelude).env, << >>, << >>, 0) >>
            /\ prog = Prelude /\ ill = Ill0 /\ phase = "gen"
            /\ vm = InitVM(<< >>, Deviations)
 
-GenNext == \/ PushLit \/ PushVar \/ MkBin \/ MkNot \/ MkTrace \/ MkFail \/ MkCast \/ MkIs \/ MkInName
+GenNext == \/ PushLit \/ PushVar \/ MkOuterRef \/ MkLeakRef \/ MkFwdRef \/ MkBin \/ MkNot \/ MkTrace \/ MkFail \/ MkCast \/ MkIs \/ MkInName
            \/ MkList \/ MkTuple \/ MkDotName \/ MkDotIdx \/ MkRange \/ MkSelect \/ MkCall \/ MkBadCall
            \/ MkCopy \/ MkFmtList \/ MkFmtBad \/ MkFmtSingle \/ MkFop \/ OpenFunc \/ CloseFunc \/ OpenMod \/ CloseMod
            \/ MkLet \/ MkLetUse \/ MkBadLet \/ MkExprStmt \/ Finish \/ RunStep \/ RunEnd
@@ -324,6 +336,7 @@ Emit == Done =>
       hit == IF VMOut(cf) = Expected THEN {} ELSE {d \in KnownDevs : VMOut(CodeRun({d})) # Expected}
   IN PrintT(<< "REPLAY", ToJson([prog |-> prog, expect |-> Expected, code |-> VMOut(cf),
                                  devs |-> SetToSeq(hit),
+                                 prefix |-> [k \in 1..(Len(prog) - 1) |-> AbsOut(Run(SubSeq(prog, 1, k)))],
                                  ops |-> [j \in 1..Len(vm.code) |-> OpView(vm.code[j])],
                                  pos |-> [j \in 1..Len(vm.code) |-> vm.code[j].p],
                                  blame |-> IF cf.res.k = "fail" THEN << cf.res.p >> \o cf.res.via ELSE << >>]) >>)
